@@ -35,7 +35,7 @@ LOOP2 = dict(
          'g_c07_cb_failed == 0', 'C07_INV_DEAD(drec)'],
     dec='drec->stream.avail_in, g_c07_budget, drec->stream.avail_out')
 UNITS.append(U(name='c07_decompress', props=['C07', 'C01'], kind='contract', src=['htp_decompressors.c'], enforce='htp_gzip_decompressor_decompress',
-               replace=['c07_sink'] + ZSTUBS + ['htp_gzip_decompressor_probe', 'htp_log/contract_c07_htp_log'],
+               replace=['c07_sink'] + ZSTUBS + ['htp_gzip_decompressor_restart', 'memcpy/contract_c07_memcpy', 'htp_log/contract_c07_htp_log'],
                contracts_inc=['c07_decomp.h'],
                pre_instrument=['--unwindset', 'htp_gzip_decompressor_decompress.0:4', '--unwinding-assertions'],
                loops={'htp_decompressors.c': {'htp_gzip_decompressor_decompress': {'count': 1, 0: LOOP2}}},
